@@ -126,7 +126,7 @@ _CONT = {
  "C13": ([("GdslModel.Props.C13", "G.Serde." + t) for t in ["undeclared_is_error", "first_key_wins", "ok_is_wellformed"]],
          "Machine-checked proof (Lean 4) about the structural layer of deserialisation (the visitor over the two lists): an error exactly when an edge names an undeclared key; repeated keys keep the first declaration; an Ok graph is mirrored, its nodes come from the document and every node's lists are exactly the listed edges in document order; the function has no panic outcome. At byte level the JSON reader is inside the model (Model/Json.lean, for K=usize, N=i64, E=u32): deJson is a total function of the bytes (no panic outcome), everything it accepts is in range and goes through the visitor (de_ok_wellformed, de_error_iff), white space around a document is irrelevant, and no proper prefix of a written document is accepted (truncated_is_error); that serde_json accepts exactly this language is the correspondence on raw bytes (every single white-space/number-literal/punctuation/truncation/trailing edit of seed documents plus random byte edits, compared exactly). The CBOR reader is inside the model in the same way (Model/Cbor.lean; Cbor.parse_inrange, de_ok_wellformed, de_error_iff, truncated_is_error, trailing_is_error), tied to serde_cbor by exact correspondence on raw CBOR documents (every item header x boundary arguments, widths, major types, indefinite lengths, reserved values, tags; truncations; random byte edits). Payload types other than usize/i64/u32 and the byte formats of other serde back ends are not modelled.",
          "Lean 4 proof of the structural layer and of the byte-level JSON and CBOR readers + exact correspondence on structural mutations and on raw JSON and CBOR bytes"),
- "C18": ([("GdslModel.Props.C18", "G.Cont." + t) for t in ["insert_spec", "remove_spec", "nodup_insert", "nodup_remove", "len_insert", "len_remove", "order_spec", "views", "root_iff_no_member_edge", "dot_lines"]],
+ "C18": ([("GdslModel.Props.C18", "G.Cont." + t) for t in ["insert_spec", "remove_spec", "nodup_insert", "nodup_remove", "len_insert", "len_remove", "order_spec", "views", "root_iff_no_member_edge", "dot_lines", "run_refines", "run_nodup"]],
          "Machine-checked proof (Lean 4) that the container model refines a key set (insert adds iff absent and otherwise changes nothing, remove/contains/len are the map's, an accepted iteration order lists each member once), that roots/leaves/orphans are exactly the members without incoming/outgoing/any edge (and, with the mirror invariant, describe the edge set from both ends), and that the DOT exports have one node statement per member and one edge statement per iterated edge. Nodes are keys in the model, so 'hands out the inserted nodes themselves' is validated, not proved: container histories interleaved with edge operations through container handles are compared call by call with the model and with an independent reference map; DOT text is compared exactly under the annotated hash order and as a multiset of lines.",
          "Lean 4 refinement proof (container = key set; views; DOT line structure) + model/implementation correspondence of container histories + reference-map and DOT oracles"),
 }
